@@ -32,6 +32,17 @@ def run(ctx):
         n += 1
         if np.shares_memory(a, v) or np.shares_memory(m, v):
             bad.append('fresh fact %s does not hold' % k)
+    # np.ma.masked_*(copy=False) on an already masked array: a view whose new condition is written into the shared mask
+    for k, fn_ in {'masked_where': lambda x: np.ma.masked_where(x.data < 2, x, copy=False), 'masked_less': lambda x: np.ma.masked_less(x, 2, copy=False),
+                   'masked_invalid': lambda x: np.ma.masked_invalid(x, copy=False)}.items():
+        n += 1
+        m2 = np.ma.masked_greater(np.arange(24.).reshape(2, 3, 4), 20)
+        before = int(m2.mask.sum())
+        r2 = fn_(m2)
+        if not np.shares_memory(m2, r2):
+            bad.append('masked ctor copy=False view fact %s does not hold' % k)
+        if k != 'masked_invalid' and int(m2.mask.sum()) == before:
+            bad.append('masked ctor copy=False in-place mask fact %s does not hold' % k)
     # mask droppers
     for k, v in {'asarray': np.asarray(m), 'view(ndarray)': m.view(np.ndarray), 'filled': m.filled(), 'data': m.data}.items():
         n += 1
